@@ -388,6 +388,15 @@ func (op *HOp) render() string {
 		default:
 			return fmt.Sprintf("print \"R\", [incp(%s)]", op.T.String())
 		}
+	case "incdec-refused":
+		// ++ / -- on a location that cannot exist (a member of null or of a
+		// number, an index before the start of an array that is not there): the
+		// plain assignment to it is a runtime error, and so is this
+		if strings.HasPrefix(op.Op, "pre") {
+			// (a statement cannot start with ++: the line before would swallow it)
+			return "tmpv = " + op.Op[3:] + op.T.String()
+		}
+		return op.T.String() + op.Op[4:]
 	case "match-early":
 		// an array-pattern case whose body is left with continue / break; then a
 		// variable named like one of the bound names is assigned
@@ -860,6 +869,11 @@ func (h *Heap) apply(op *HOp) (string, error) {
 			}
 			return "[" + fmtNum(n+11) + "]", nil
 		}
+	case "incdec-refused":
+		if err := h.refusedOK(op); err != nil {
+			return "", err
+		}
+		return "", nil
 	case "match-early":
 		// nothing the heap holds changes: the bound names end with their case
 		v, err := h.readPath(op.T)
@@ -1449,7 +1463,20 @@ func runHeapCase(c *HeapCase, keep bool) Outcome {
 	o.Nontrivial = len(c.Ops) >= 2
 	lines := strings.Split(strings.TrimSuffix(out.String(), "\n"), "\n")
 	mayRefuse := len(c.Ops) > 0 && c.Ops[len(c.Ops)-1].Kind == "ret-member-assign"
+	mustRefuse := len(c.Ops) > 0 && c.Ops[len(c.Ops)-1].Kind == "incdec-refused" && passes == 1
 	for i, w := range want {
+		if mustRefuse && i == len(want)-1 {
+			if i >= len(lines) && kind == "RuntimeError" {
+				o.Probes["increment_of_an_impossible_location_refused"]++
+				return finish()
+			}
+			o.Class = "refused-write-ignored"
+			o.Msg = fmt.Sprintf("operation #%d `%s` addresses a location that cannot exist (the plain assignment to it is a runtime error); the run went on (%s) as if nothing had been asked", w.op, opText(c, w.op), kind)
+			if i < len(lines) {
+				o.Msg += "; state afterwards: " + truncate(lines[i], 300)
+			}
+			return finish()
+		}
 		if i >= len(lines) && mayRefuse && i == len(want)-1 && kind == "RuntimeError" {
 			// the last operation was refused with a runtime error: nothing was changed
 			o.Probes["assignment_through_returned_null_refused"]++
@@ -1679,6 +1706,31 @@ func genHeapCase(t *Tape, maxOps int) *HeapCase {
 		c.Ops = append(c.Ops, op)
 	}
 	if t.Chance(1, 12) {
+		// ++/-- on a location that cannot exist, as the last operation
+		var cands []HPath
+		for _, base := range append(append([]string{}, c.Vars...), "$") {
+			v := h.cell(base).V
+			if v.K == 'z' || v.K == 'n' {
+				cands = append(cands, HPath{Base: base, Steps: []HStep{{Key: heapKeys[t.Draw(len(heapKeys))]}}})
+			}
+			if v.K == 'o' {
+				for _, k := range sortedKeysOf(v.Obj) {
+					if m := v.Obj.M[k].V; (m.K == 'z' && !v.Obj.M[k].absent) || m.K == 'n' {
+						cands = append(cands, HPath{Base: base, Steps: []HStep{{Key: k}, {Key: heapKeys[t.Draw(len(heapKeys))]}}})
+					}
+				}
+				cands = append(cands, HPath{Base: base, Steps: []HStep{{Key: "zz_absent"}, {IsIdx: true, Idx: -1 - t.Draw(2)}}})
+			}
+		}
+		if len(cands) > 0 {
+			op := HOp{Kind: "incdec-refused", T: cands[t.Draw(len(cands))], Op: []string{"pre++", "post++", "pre--", "post--"}[t.Draw(4)]}
+			if h.dryRun(&op) == nil {
+				c.Ops = append(c.Ops, op)
+				return c
+			}
+		}
+	}
+	if t.Chance(1, 12) {
 		op := HOp{Kind: "ret-member-assign", T: genHeapPath(t, h, c.Vars, false), Key: heapKeys[t.Draw(len(heapKeys))], Lit: heapScalarLits[t.Draw(len(heapScalarLits))]}
 		if h.dryRun(&op) == nil {
 			c.Ops = append(c.Ops, op)
@@ -1757,6 +1809,64 @@ func (h *Heap) methodOK(op *HOp) error {
 	return nil
 }
 
+// refusedOK: the path's last step hangs off an explicit null or a number (both
+// present in the heap), or is a negative index on a member that does not exist.
+func (h *Heap) refusedOK(op *HOp) error {
+	n := len(op.T.Steps)
+	if n == 0 {
+		return errUnsupported{"needs a step"}
+	}
+	parent := HPath{Base: op.T.Base, Steps: op.T.Steps[:n-1]}
+	last := op.T.Steps[n-1]
+	if last.IsIdx && last.Idx < 0 {
+		// o.missing[-1]: the parent path must end in a member that is absent from an existing object
+		if n < 2 || parent.Steps[n-2].IsIdx {
+			return errUnsupported{"needs a missing member"}
+		}
+		gp := HPath{Base: op.T.Base, Steps: op.T.Steps[:n-2]}
+		g, err := h.readPath(gp)
+		if err != nil || g.K != 'o' {
+			return errUnsupported{"needs an object"}
+		}
+		if _, present := g.Obj.M[parent.Steps[n-2].Key]; present || heapMethodNames[parent.Steps[n-2].Key] {
+			return errUnsupported{"member exists"}
+		}
+		return nil
+	}
+	// every step of the parent path must address something present
+	probe := HOp{Kind: "method", T: parent, Fn: "pop"}
+	if err := h.methodOK(&probe); err == nil {
+		return errUnsupported{"parent is an array"}
+	}
+	c := h.cell(parent.Base)
+	v := c.V
+	for _, s := range parent.Steps {
+		switch v.K {
+		case 'o':
+			m, ok := v.Obj.M[s.Key]
+			if s.IsIdx || !ok {
+				return errUnsupported{"parent path does not exist"}
+			}
+			v = m.V
+		case 'a':
+			idx := s.Idx
+			if !s.IsIdx || idx < 0 || idx >= len(v.Arr.Items) {
+				return errUnsupported{"parent path does not exist"}
+			}
+			v = v.Arr.Items[idx].V
+		default:
+			return errUnsupported{"parent path does not exist"}
+		}
+	}
+	if v.K != 'z' && v.K != 'n' {
+		return errUnsupported{"parent is neither null nor a number"}
+	}
+	if last.IsIdx || heapMethodNames[last.Key] {
+		return errUnsupported{"member step only"}
+	}
+	return nil
+}
+
 func (h *Heap) selfChainOK(op *HOp) error {
 	if len(op.T.Steps) == 0 {
 		return errUnsupported{"self-chain needs a member or an index"}
@@ -1789,6 +1899,8 @@ func (h *Heap) dryRun(op *HOp) error {
 		return h.methodOK(op)
 	case "self-chain":
 		return h.selfChainOK(op)
+	case "incdec-refused":
+		return h.refusedOK(op)
 	case "ret-member-assign":
 		v, err := h.readPath(op.T)
 		if err != nil {
@@ -2002,4 +2114,13 @@ func registerC09() {
 			mk("long-histories", map[string]int{"quick": 40000, "thorough": 800000}, 40),
 		},
 	})
+}
+
+func sortedKeysOf(o *HObj) []string {
+	ks := make([]string, 0, len(o.M))
+	for k := range o.M {
+		ks = append(ks, k)
+	}
+	sort.Strings(ks)
+	return ks
 }
